@@ -91,8 +91,12 @@ def generate(cls, rng):
     nthreads = rng.choice([2, 2, 3, 4])
     threads = [gen_client_ops(rng, rng.randrange(1, 9), 2, finite)
                for _ in range(nthreads)]
-    kind = rng.choice(["random", "random", "pb", "pb", "pct"])
-    if kind == "random":
+    kind = rng.choice(["random", "random", "pb", "pb", "pct", "crit"])
+    if kind == "crit":
+        strat = dict(kind="crit", k=rng.choice([1, 2, 3]),
+                     q=rng.choice([0.05, 0.15, 0.4]),
+                     p=rng.choice([0.0, 0.02, 0.1]))
+    elif kind == "random":
         strat = dict(kind="random", p=rng.choice([0.02, 0.05, 0.1, 0.3, 1.0]))
     elif kind == "pb":
         strat = dict(kind="pb", k=rng.choice([0, 1, 2, 3]),
